@@ -69,19 +69,21 @@ ASSUMPTIONS = [
     "u (or a coefficient_derivatives key) or an image depends on it this is 'differentiate first' (the reading documented in replace.py)",
     "replace(e, m) on an input containing CoefficientDerivative returns the expanded derivative even when no key occurs; only value "
     "equality is asserted there",
+    "replace(form, m) drops integrals whose integrand is the literal Zero (map_integrands); the no-key monitor compares the remaining "
+    "integrals one by one (== and canon-equal, same order)",
     "non-terminal keys mean: every occurrence of that subexpression (as built, compared with ==) is replaced by the image",
     "if replace raises on a shape-compatible mapping although the overridden input has a finite value in two worlds, that is a violation "
     "(literal division by zero and the like give non-finite expectations and count as rejected)",
 ]
 BUDGET = {"quick": 45, "thorough": 420}
-NCASES = {"quick": 2600, "thorough": 40000}
+NCASES = {"quick": 8000, "thorough": 120000}
 CASE_TIMEOUT = 40.0
 EVAL_COUNTER = "cases"
 FLOORS = {
-    "quick": {"case_held": 400, "effective": 300, "rejected_as_required": 60, "identity_checks": 60, "form_groups_held": 60,
-              "deriv_held": 40, "nonterminal_held": 25},
-    "thorough": {"case_held": 6000, "effective": 4500, "rejected_as_required": 900, "identity_checks": 900, "form_groups_held": 900,
-                 "deriv_held": 600, "nonterminal_held": 400},
+    "quick": {"case_held": 1700, "effective": 1500, "rejected_as_required": 200, "identity_checks": 200, "form_groups_held": 750,
+              "deriv_held": 240, "nonterminal_held": 200},
+    "thorough": {"case_held": 25000, "effective": 22000, "rejected_as_required": 3000, "identity_checks": 3000, "form_groups_held": 11000,
+                 "deriv_held": 3600, "nonterminal_held": 3000},
 }
 COVER_FLOORS = {
     "quick": {"families_held": ["expr", "form", "deriv", "nonterminal"], "itypes_held": ["cell", "exterior_facet", "interior_facet"]},
@@ -963,10 +965,20 @@ def family_identity(ctx, i, rng):
         return
     ctx.count("identity_checks")
     try:
-        eq = bool(out == target) if not hasattr(target, "integrals") else bool(out.equals(target))
-    except Exception:
-        eq = False
-    same_canon = canon(out, "abs") == canon(target, "abs")
+        if hasattr(target, "integrals"):
+            # map_integrands drops integrals whose integrand is the literal Zero (value neutral): compare the others one by one
+            want = [itg for itg in target.integrals() if type(itg.integrand()).__name__ != "Zero"]
+            if len(want) != len(target.integrals()):
+                ctx.count("identity_input_had_zero_integrals")
+            got = list(out.integrals()) if hasattr(out, "integrals") else None
+            eq = got is not None and len(got) == len(want) and all(bool(a == b) for a, b in zip(got, want))
+            same_canon = got is not None and [canon(a, "abs") for a in got] == [canon(b, "abs") for b in want]
+        else:
+            eq = bool(out == target)
+            same_canon = canon(out, "abs") == canon(target, "abs")
+    except Exception as ex:
+        ctx.covered("identity_compare_raised", type(ex).__name__ + ": " + str(ex)[:60])
+        eq = same_canon = False
     if not (eq and same_canon):
         ctx.violation(f"C21/identity/changed/{style}/{'form' if as_form else skeleton(target, 1)}",
                       f"replace with a mapping none of whose keys occurs returned something else (==: {eq}, canon-equal: {same_canon})",
@@ -1017,37 +1029,51 @@ def family_deriv(ctx, i, rng):
             du2 = U.arg(uname, 1) if rng.random() < 0.6 else U.coef(uname, 5)
             dF = ufl.derivative(dF, u, du2)
         # mapping
-        mode = rng.choice(["other", "other", "direction", "variable", "image-has-u", "mixed"])
+        mode = rng.choice(["other", "other", "direction", "variable", "image-has-u", "mixed", "absent"])
         diffvars = [u] + (list(cd) if cd else [])
-        pool = {"other": others, "direction": [dukey], "variable": [ukey], "image-has-u": others or [dukey], "mixed": [ukey, dukey] + others}[mode]
-        if not pool:
-            pool, mode = [dukey], "direction"
-        forbid = () if mode in ("variable", "image-has-u", "mixed") else tuple(diffvars)
-        built = build_mapping(rng, U, pool + ([ukey] if mode == "image-has-u" else []), dF if not as_form else target + dF, cplx,
-                              force_style=rng.choice(["single", "multi", "all"]), forbid=forbid)
-        if built is None:
-            ctx.count("no_key_in_expression")
-            return
-        mapping, subst, style, kinds = built
-        if mode == "image-has-u":
-            # images must not be keyed by u here, but shall contain it
-            mapping.pop(u, None)
-            subst.pop(u, None)
-            q = rng.choice(others or [dukey])
-            img = (q.obj * (1 + (u * u if not u.ufl_shape else ufl.inner(u, u)))) if True else None
-            mapping[q.obj] = img
-            subst[q.obj] = ("expr", img)
     except Exception as ex:
         ctx.count("build_rejected")
         ctx.covered("build_rejected_with", type(ex).__name__ + ": " + str(ex)[:60])
         return
-    touches = any(any(k == x for x in diffvars) for k in mapping) or any(hasattr(v, "ufl_shape") and any(occurs(v, x) for x in diffvars) for v in mapping.values())
     try:
         expanded = expand_derivatives(dF)
     except Exception as ex:
         ctx.count("rejected_by_expand_derivatives")
         ctx.covered("expand_derivatives_raised", type(ex).__name__ + ": " + str(ex)[:60])
         return
+    try:
+        two_sided = integrands_of(expanded) if U.interior else []
+        if mode == "absent" or (mode == "other" and not others):
+            mode = "absent"
+            q = new_key(rng, U)
+            fresh = {"coef": lambda: U.coef(q.name, 7), "arg": lambda: U.arg(q.name, 5), "const": lambda: U.const(q.shape, 7)}[q.kind]()
+            Gimg = Gen(U, rng, cplx=cplx, deriv=1, cond=False, math=False, geom=False, restrict=False)
+            img, kind = make_image(rng, U, Gimg, Key(fresh, q.kind, q.name), [], False, cplx)
+            mapping, subst, style, kinds = {fresh: img}, {fresh: ("expr", ufl.as_ufl(img))}, "absent", (kind,)
+        elif mode == "image-has-u":
+            q = rng.choice(others or [dukey])
+            usq = u * u if not u.ufl_shape else ufl.inner(u, u)
+            img = q.obj * (1 + usq) if rng.random() < 0.6 else 2 * q.obj - q.obj * ufl.sin(usq)
+            mapping, subst, style, kinds = {q.obj: img}, {q.obj: ("expr", img)}, "single", ("has-u",)
+            rest = [x for x in others if x is not q]
+            if rest and rng.random() < 0.5:
+                built = build_mapping(rng, U, rest, expanded, cplx, force_style="multi", two_sided=two_sided)
+                if built is not None:
+                    mapping.update(built[0])
+                    subst.update(built[1])
+        else:
+            pool = {"other": others, "direction": [dukey], "variable": [ukey], "mixed": [ukey, dukey] + others}[mode]
+            forbid = () if mode in ("variable", "mixed") else tuple(diffvars)
+            built = build_mapping(rng, U, pool, expanded, cplx, force_style=rng.choice(["single", "multi", "all"]), forbid=forbid, two_sided=two_sided)
+            if built is None:
+                ctx.count("no_key_in_expression")
+                return
+            mapping, subst, style, kinds = built
+    except Exception as ex:
+        ctx.count("build_rejected")
+        ctx.covered("build_rejected_with", type(ex).__name__ + ": " + str(ex)[:60])
+        return
+    touches = any(any(k == x for x in diffvars) for k in mapping) or any(hasattr(v, "ufl_shape") and any(occurs(v, x) for x in diffvars) for v in mapping.values())
     fn, fname = pick_fn(rng)
     try:
         out = fn(dF, mapping)
@@ -1146,7 +1172,7 @@ def family_nonterminal(ctx, i, rng):
         g2 = U.coef(rng.choice(["P2", "P1", "DG1"]), 6)
         vname = rng.choice(U.spaces_with_shape((g,)))
         v2 = U.coef(vname, 5)
-        kkind = rng.choice(["grad", "grad", "product", "sum", "math", "indexed", "variable", "gradvec", "div", "listtensor"])
+        kkind = rng.choice(["grad", "grad", "product", "sum", "math", "indexed", "variable", "gradvec", "div", "conditional", "division"])
         deriv = rng.choice([0, 1, 1])
         if kkind == "grad":
             K, deriv = ufl.grad(f2), 0
@@ -1164,8 +1190,10 @@ def family_nonterminal(ctx, i, rng):
             K = v2[rng.randrange(g)] * 1.75
         elif kkind == "variable":
             K = ufl.variable(f2 * g2 + 1)
+        elif kkind == "conditional":
+            K = ufl.conditional(ufl.lt(ufl.real(f2) if cplx else f2, 0.3), f2, g2)
         else:
-            K = ufl.as_vector([f2, 2 * g2, f2 * g2][: max(g, 2)]) if g <= 3 else None
+            K = f2 / (3.25 + g2 * g2)
         ksh = tuple(K.ufl_shape)
         pnames = U.spaces_with_shape(ksh)
         if not pnames:
@@ -1265,6 +1293,6 @@ DISPATCH = {"expr": family_expr, "form": family_form, "shape": family_shape, "id
 
 
 def case(ctx, i, rng):
-    fam = FAMILIES[i % len(FAMILIES)]
+    fam = rng.choice(FAMILIES)
     ctx.count("family_" + fam)
     DISPATCH[fam](ctx, i, rng)
